@@ -832,8 +832,22 @@ func runC14Literals(c *kit.Ctx, k *keyer, t *c14Tables, specFields []*types.Var,
 	// its arguments are then read in the wrapper and expressed in the adder's
 	// frame by parameter substitution.
 	var adders []*ssa.Function
+	// candidates: the functions that call insertTorrent, and - when such a function constructs
+	// nothing itself (a register helper like saveAndInsertTorrent(t, spec)) - its static callers
+	var cands []*ssa.Function
 	for _, s := range sortSites(c.CallSites(insertTorrent)) {
 		F := s.Fn
+		if F != loader && c14FindCtor(F, newTorrentObj, loader) == nil {
+			for _, cs := range c.StaticCallSites(F) {
+				if cs != nil {
+					cands = append(cands, cs.Parent())
+				}
+			}
+			continue
+		}
+		cands = append(cands, F)
+	}
+	for _, F := range cands {
 		if F == loader || fnIn(F, adders...) {
 			continue
 		}
